@@ -64,7 +64,7 @@ func main() {
 		specs = append(specs, e2e.ClusterSpec{Name: c.name, Hosts: []string{u.Addr}, MaxRequests: c.maxReq, MaxRetries: c.maxRetry})
 		routes = append(routes, e2e.RouteSpec{Prefix: "/" + c.name + "/", Cluster: c.name, RetryOn: true, NumRetries: 2})
 	}
-	laddr := e2e.FreeAddr()
+	laddr := e2e.ListenerAddr()
 	lst := e2e.BuildListener(e2e.ListenerSpec{Name: "c10", Addr: laddr, Downstream: "Http1", Upstream: "Http1", Routes: routes})
 	m := e2e.StartMosn(e2e.BuildConfig([]v2.Listener{lst}, e2e.BuildClusters(specs), e2e.ScratchLog(tmp)))
 	defer m.Close()
